@@ -107,7 +107,18 @@ pub fn run(n: usize, rng: &mut Rng, rep: &mut Report) {
     for _ in 0..n {
         let s = gen_string(rng);
         let (_, bits) = gen_set(rng);
-        let mk = || { let mut a = AsciiSet::empty(); for b in 0u8..128 { if has(bits, b) { a = a.add(b); } } a };
+        // the configured set is reached either by adds alone or by a longer history: extra bytes added and removed again,
+        // and bytes removed that were never in it (a defensive `SET.remove(b'%')`) - the set meant is the same
+        let extras: Vec<u8> = if rng.chance(1, 3) { (0..rng.range(1, 6)).map(|_| match rng.below(3) { 0 => *rng.pick(b"%?#/ "), _ => rng.below(128) as u8 }).filter(|b| !has(bits, *b)).collect() } else { vec![] };
+        let readd = rng.chance(1, 2);
+        if !extras.is_empty() { rep.stats.count("set_by_history"); }
+        let mk = || {
+            let mut a = AsciiSet::empty();
+            for b in 0u8..128 { if has(bits, b) { a = a.add(b); } }
+            for (i, b) in extras.iter().enumerate() { if readd || i % 2 == 0 { a = a.add(*b); } }
+            for b in extras.iter() { a = a.remove(*b); }
+            a
+        };
         for keep in [false, true] {
             let input = format!("set={} keep={} src={}", bits, keep as u8, hex(s.as_bytes()));
             let out = match guarded(|| encode(&s, mk(), keep)) {
